@@ -653,7 +653,7 @@ func c19Seq(c *Ctx, names []string, evs []event) {
 		if ev.kind == "DL" {
 			delete(tainted, ev.name)
 		}
-		if !object.Constant(ev.name) || tainted[ev.name] {
+		if !object.Constant(ev.name) || tainted[ev.name] || (ev.kind == "CA" && tainted[ev.y]) {
 			continue
 		}
 		if (a == "err") != (b == "err") {
